@@ -164,7 +164,17 @@ def call_lines(func):
     tree = ast.parse(textwrap.dedent("".join(lines)))
     fn = tree.body[0]
     out = {}
+    # statements of a `finally:` body are the clean-up itself, not a point where the computation can fail
+    cleanup = set()
     for node in ast.walk(fn):
+        if isinstance(node, ast.Try):
+            for st in node.finalbody:
+                for sub in ast.walk(st):
+                    if hasattr(sub, "lineno"):
+                        cleanup.add(sub.lineno)
+    for node in ast.walk(fn):
+        if getattr(node, "lineno", None) in cleanup:
+            continue
         if isinstance(node, ast.stmt) and not isinstance(node, (ast.FunctionDef, ast.If, ast.For, ast.While,
                                                                 ast.With, ast.Try, ast.Import, ast.ImportFrom)):
             if any(isinstance(n, ast.Call) for n in ast.walk(node)):
